@@ -18,6 +18,9 @@ NOTES = {
              "1700/1800/1900/2100/2200/2300 and both ends of the range",
     "C12-C": "round 2; first missed (second save after further merges): stand-in got two-stage save histories, and recalculate_merged_cells is now "
              "under contract (map rebuilt from every anchor)",
+    "C06-C": "round 3; first missed by the C06 check (caught by C17's is_iwa_file proof): C06 now re-verifies is_iwa_file and _decompress_all, and "
+             "its stand-in has a one-chunk-per-member variant and a document the library writes itself with a member larger than 64 KiB",
+    "C05-C": "round 3; first caught by the deductive side only: the stand-in now cuts streams at repeated boundaries (chunks that decompress to nothing)",
     "C01-C": "round 2; first caught by the stand-in only: C01/C02 now re-verify C07's tile-loop and row-record contracts",
 }
 lines = ["", "| Seed | Change (from its meta.json) | Result | Deductive obligations that fired | Ground | Bounded |", "|---|---|---|---|---|---|"]
